@@ -151,6 +151,8 @@ pub enum Op {
     Fund { amt: u32 },
     /// refill the multisig's pool of the deposit token
     FundDeposit { amt: u32 },
+    /// the group's admin gives the role up for good (UpdateAdmin to none): from then on the group cannot change
+    GroupRenounce,
     /// every silent voter / member (the ones that otherwise never act) casts the same vote on one proposal:
     /// proposals with more ballots than any page or batch holds (C03, C05)
     SilentVotes { prop: Target, vote: u8 },
@@ -316,7 +318,7 @@ fn op(prop: &str) -> BoxedStrategy<Op> {
     match prop {
         "C03" => prop_oneof![12 => propose, 28 => vote, 8 => execute, 8 => close, 6 => advance, 8 => to_expiry, 4 => group, 1 => silent_votes].boxed(),
         "C05" => prop_oneof![12 => propose, 20 => vote, 18 => execute, 8 => close, 4 => advance, 6 => to_expiry, 6 => fault, 4 => fund, 4 => group, 1 => silent_votes].boxed(),
-        "C06" => prop_oneof![6 => propose, 12 => vote, 2 => execute, 1 => close, 4 => advance, 2 => to_expiry, 8 => group].boxed(),
+        "C06" => prop_oneof![18 => propose, 36 => vote, 6 => execute, 3 => close, 12 => advance, 6 => to_expiry, 24 => group, 1 => Just(Op::GroupRenounce)].boxed(),
         // C15: group changes between Propose and Execute / Close must not touch anybody's deposit
         _ => prop_oneof![8 => propose, 10 => vote, 6 => execute, 6 => close, 2 => advance, 4 => to_expiry, 1 => fund_dep, 3 => group].boxed(),
     }
@@ -445,12 +447,27 @@ pub fn mcase_strategy(prop: &str, tier: Tier) -> BoxedStrategy<MCase> {
                     ]
                 })
                 .boxed();
+            // C06: a member joins after a proposal was opened, the group's admin then renounces (the group is frozen
+            // from now on), and the newcomer tries to vote on the old proposal
+            let frozen = (by_member(), actor(), prop_oneof![Just(3u64), Just(9u64), 1u64..6], any::<u16>())
+                .prop_map(|(by, a, wt, k)| {
+                    vec![
+                        Op::Propose { by, msgs: vec![], latest: Latest::None, pay: Pay::Exact },
+                        Op::Advance { blocks: 1, secs: 5 },
+                        Op::GroupUpdate { add: vec![(a, wt)], remove: vec![] },
+                        Op::GroupRenounce,
+                        Op::Vote { by: By::Actor(a), prop: Target::Any(u16::MAX), vote: 0 },
+                        Op::Vote { by: By::Fresh(k), prop: Target::Any(u16::MAX), vote: 0 },
+                    ]
+                })
+                .boxed();
             let groups = if prop_s == "C05" {
                 prop_oneof![24 => single, 6 => campaign, 4 => retry, 2 => twice, 1 => shrunk].boxed()
             } else if prop_s == "C06" {
-                prop_oneof![12 => single, 3 => campaign, 1 => long_haul, 1 => leaver, 1 => grown].boxed()
+                prop_oneof![24 => single, 6 => campaign, 2 => long_haul, 2 => leaver, 2 => grown, 1 => frozen].boxed()
             } else {
-                prop_oneof![12 => single, 3 => campaign].boxed()
+                // (C15 too: the very same message-less proposal submitted twice in a row is two proposals, two deposits)
+                prop_oneof![24 => single, 6 => campaign, 1 => twice].boxed()
             };
             let silent = prop_oneof![5 => Just(vec![]), 1 => proptest::collection::vec(weight(), 1..4), 2 => proptest::collection::vec(weight(), 4..12)];
             (Just(fl), voters(&prop_s, fixed), silent, thr_spec(), dur_for(&prop_s), proptest::collection::vec(groups, 0..max_ops).prop_map(|g| g.into_iter().flatten().collect::<Vec<_>>()))
@@ -847,7 +864,15 @@ pub fn run_mcase(prop: &str, case: &MCase, ctx: &mut CaseCtx) -> Result<(), Viol
         }
         // (the list goes out as generated: C06 lists may name an address twice, which the group has to refuse)
         let _ = &m;
-        let gmsg = cw4_group::msg::InstantiateMsg { admin: Some(admin.to_string()), members: case.voters.iter().map(|(i, w)| Member { addr: actors[*i as usize % N_ACTORS].to_string(), weight: *w }).chain(silent_addrs.iter().zip(case.silent.iter()).map(|(a, w)| Member { addr: a.to_string(), weight: *w })).collect() };
+        // (every second repeat of an address is spelled in upper case: not a normalised address, refused as well)
+        let mut seen_ix: BTreeMap<usize, usize> = BTreeMap::new();
+        let spelled: Vec<String> = case.voters.iter().map(|(i, _)| {
+            let ix = *i as usize % N_ACTORS;
+            let n = seen_ix.entry(ix).or_insert(0);
+            *n += 1;
+            if *n == 2 { actors[ix].to_string().to_uppercase() } else { actors[ix].to_string() }
+        }).collect();
+        let gmsg = cw4_group::msg::InstantiateMsg { admin: Some(admin.to_string()), members: case.voters.iter().zip(spelled.iter()).map(|((_, w), a)| Member { addr: a.clone(), weight: *w }).chain(silent_addrs.iter().zip(case.silent.iter()).map(|(a, w)| Member { addr: a.to_string(), weight: *w })).collect() };
         let g = match try_instantiate(&mut app, gcode, &faucet, &gmsg, "group") {
             Ok(a) => a,
             Err(_) => {
@@ -1227,6 +1252,13 @@ pub fn run_mcase(prop: &str, case: &MCase, ctx: &mut CaseCtx) -> Result<(), Viol
                 let vv = to_vote(*vote);
                 let r = exec_as(&mut w.app, w.relay.clone().as_ref(), &w.faucet.clone(), &w.actors[by].clone(), &w.multisig.clone(), &cw3_fixed_multisig::msg::ExecuteMsg::Vote { proposal_id: id, vote: vv }, &[]);
                 Done::Vote { by, target, ok: r.is_ok(), vote: vv }
+            }
+            Op::GroupRenounce => {
+                if let Some(g) = w.group.clone() {
+                    let ok = try_exec(&mut w.app, &admin, &g, &cw4_group::msg::ExecuteMsg::UpdateAdmin { admin: None }, &[]).is_ok();
+                    ctx.count(if ok { "group_admin_renounced" } else { "group_admin_renounce_refused" });
+                }
+                Done::Other
             }
             Op::SilentVotes { prop: k, vote } => {
                 if let Some(t) = pick_target(k, 0) {
@@ -1699,6 +1731,18 @@ fn oracle_c05(w: &World, pre: &Obs, post: &Obs, done: &Done, models: &mut [PMode
         let delta = post.bal[a][1] as i128 - pre.bal[a][1] as i128;
         if delta != expect_bank[a] as i128 {
             return Err(v(prop, "bank-dispatch-mismatch", format!("{at}: actor{a} balance changed by {delta}, the executed proposals send it {}", expect_bank[a])));
+        }
+    }
+    // a Close or a Vote is about one proposal: what is reported about every other proposal stays as it was
+    if let Done::Close { target: Some(i), ok: true } | Done::Vote { target: Some(i), ok: true, .. } = done {
+        for (j, m) in models.iter().enumerate() {
+            if j == *i {
+                continue;
+            }
+            let (a, b) = (pre.props.iter().find(|p| p.id == m.id).map(|p| p.status), post.props.iter().find(|p| p.id == m.id).map(|p| p.status));
+            if a.is_some() && a != b {
+                return Err(v(prop, "other-proposal-touched", format!("{at}: the call was about proposal {}, yet proposal {} went {:?} -> {:?}", models[*i].id, m.id, a, b)));
+            }
         }
     }
     match done {
